@@ -89,13 +89,10 @@ func Load(dir string, cfg Config) (*Program, error) {
 	p.all = ssautil.AllFunctions(sp)
 	p.NFuncs = len(p.all)
 	for f := range p.all {
-		if f.Pkg != nil && p.InModule(f.Pkg.Pkg) && f.Blocks != nil {
+		// the instantiations of a generic function of the module (and their anonymous functions) have no package
+		// of their own: they belong where the generic function was declared
+		if sk := ownerPkg(f); sk != nil && p.InModule(sk.Pkg) && f.Blocks != nil {
 			p.mod = append(p.mod, f)
-		} else if f.Pkg == nil && f.Parent() != nil {
-			// anonymous function of an instantiated generic etc.
-			if top := topParent(f); top.Pkg != nil && p.InModule(top.Pkg.Pkg) && f.Blocks != nil {
-				p.mod = append(p.mod, f)
-			}
 		}
 	}
 	sort.Slice(p.mod, func(i, j int) bool {
@@ -105,6 +102,19 @@ func Load(dir string, cfg Config) (*Program, error) {
 		return p.mod[i].String() < p.mod[j].String()
 	})
 	return p, nil
+}
+
+// ownerPkg: the package a function belongs to: its own, its enclosing function's, or — for an instantiation of a
+// generic function — that of the generic function.
+func ownerPkg(f *ssa.Function) *ssa.Package {
+	f = topParent(f)
+	if f.Pkg != nil {
+		return f.Pkg
+	}
+	if o := f.Origin(); o != nil {
+		return topParent(o).Pkg
+	}
+	return nil
 }
 
 func topParent(f *ssa.Function) *ssa.Function {
@@ -121,11 +131,11 @@ func (p *Program) InModule(tp *types.Package) bool {
 
 // IsLibrary reports whether the function belongs to the library packages under diam/ (not examples).
 func (p *Program) IsLibrary(f *ssa.Function) bool {
-	f = topParent(f)
-	if f.Pkg == nil {
+	sk := ownerPkg(f)
+	if sk == nil {
 		return false
 	}
-	path := f.Pkg.Pkg.Path()
+	path := sk.Pkg.Path()
 	return path == ModPath+"/diam" || strings.HasPrefix(path, ModPath+"/diam/")
 }
 
